@@ -10,6 +10,9 @@ def run(ctx):
 
     def biased(rng, kind="any"):
         if kind == "any" and rng.random() < 0.3:
+            if rng.random() < 0.2:
+                # invalid only through what a package brings along: a requirement constraint or a hint O/X a package of time conditions (format constraints)
+                return rng.choice(["[2] O [5P]", "[501] O [5P]", "[2] X [6P]", "[6P] O [1]", "[5P] X [502]"])
             return orig(rng, "invalid")
         return orig(rng, kind)
 
